@@ -73,6 +73,7 @@ pub fn generate(out: &mut Out, seed: u64, thorough: bool) {
             alpha: rng.chance(1, 2),
             sbuf: random_comps(&mut rng, pt, (sw * sh) as usize, mode),
             dynamic: rng.chance(1, 3),
+            custom: None,
         };
         let got = run_case(&case, 0xA5);
         out.count(&format!("pt:{}", pt_name(pt)));
